@@ -23,11 +23,11 @@ RULE = ("port trees: 1..24 names per table over {a b c} + digits (lengths 1..3, 
         "frequent), leaves with/without ':types' (also two leaves with the same name and different types), "
         "'#N' enumerations in about a third of the tables (such tables take the linear scan, the others the "
         "perfect hash when the library finds one), sub-trees 'name/' and 'name#N/' nested up to 4 levels, "
-        "default handler on about a quarter of the tables; in about a third of the tables names of several address "
+        "default handler on about a quarter of the tables (hashed and unhashed ones; it must run exactly when no port of a reached table takes the message, with and without location buffer); in about 6 % of the tables names with bytes 0x7f / 0x80 / 0xe9 / 0xff; in about a third of the tables names of several address "
         "components, with and without '#N', as leaves and as sub-trees at every depth (a#2/b#3/, a#2/k#2:i, x/y/, u/v/w/; "
         "a '#'-free table holding one takes the linear scan too); "
         "addresses derived from a randomly chosen port path: exact, one character appended / removed / changed, "
-        "index N-1 / N / N+1 / leading zeros, '/' dropped or doubled, leading '/' dropped, plus random short "
+        "index N-1 / N / N+1 / leading zeros, '/' dropped or doubled, leading '/' dropped, a byte 0x7f / 0x80 / 0xe9 / 0xff changed in / inserted / appended / as a whole component (8 %), plus random short "
         "addresses; type strings equal to an alternative, a proper extension of one (the text leaves that verdict open: the two runs must then agree), with the first tag changed, with the last tag dropped, or unrelated. "
         "Each case is dispatched twice (with and without location buffer).  Non-trivial = the table of the "
         "addressed port has >= 3 ports and at least one callback was invoked or a near-miss address was used.")
@@ -40,9 +40,10 @@ TRUSTED = ["harness/h_C04.cpp: Ports subclass filling the public `ports` vector 
            "tools/props/C04.py: the Python Spec oracle (C05's pattern oracle applied level by level)",
            "the perfect-hash search (find_pos, find_assoc) is not modelled: its output is an input of the model; "
            "what is modelled and proved is everything the library does with it"]
-ASSUMPTIONS = ["port names of the documented form literal text / #N / trailing '/' / ':types'; 7-bit addresses "
-               "(assoc has 127 entries; a character >= 127 in an address indexes outside it - not part of C04's "
-               "alphabet); location buffer large enough (ports.cpp: 'buffer_size is not properly handled yet'); "
+ASSUMPTIONS = ["port names of the documented form literal text / #N / trailing '/' / ':types' (any bytes but NUL and ':' in "
+               "names and addresses - no 7-bit restriction since fix 7baa3a8); where the type string is a proper extension of an "
+               "alternative the text gives no verdict on that port (counted in dist as no-verdict:...): the oracle then only "
+               "requires both runs and all tables to agree; location buffer large enough (ports.cpp: 'buffer_size is not properly handled yet'); "
                "callbacks of sub-tree ports follow the recursion contract SNIP + dispatch of rRecur*Cb"]
 
 _ctx = None
@@ -128,16 +129,24 @@ def first_number(m):
         e += 1
     return int(m[j:e]) if e > j else 0
 
-def expected(t, addr, ty, chosen=frozenset()):
-    """events a root dispatch must produce: (tid, idx, msg offset, obj, loc).
-    Where the type string is a proper extension of an alternative the property
-    text leaves the verdict open ("equal to or an extension of"): such a port
-    is expected iff the run WITH location buffer invoked it (chosen); the run
-    without buffer must then do the same."""
+def expected(t, addr, ty, chosen=None):
+    """What a root dispatch must do, in order, derived from the names alone:
+         ("E", tid, idx, msg offset, obj, loc)   a port callback
+         ("D", tid, msg offset, obj, loc)        the default handler of a table none of whose
+                                                 ports took the message (fix 0074cc3: on every path)
+    plus `free`: the ports the address reaches whose type string is a PROPER EXTENSION of one
+    of their alternatives.  For those the property text gives NO VERDICT (C05: "no type string
+    that is neither equal to nor an extension of an alternative ever matches" - an extension
+    may or may not match), so the oracle cannot say whether the callback runs.  What it does
+    say: such a port is a candidate only because an alternative is a prefix of the tags (a
+    port whose alternatives are no prefix is 'mustnot' and reported as spurious); the verdict
+    must be the same in the run with and in the run without location buffer (lookup
+    strategies); and it must be a function of (type specification, tags) - the same in every
+    table of the tree.  `chosen` = the candidates taken (None: all of them); everything else in the expectation -
+    the other ports, order, objects, loc, default handlers, matches - follows from the names."""
     full = addr
     off0 = 1 if addr[:1] == b"/" else 0
-    out = []
-    nomatch_tabs = set()
+    out, free = [], []
     def level(t, off, obj):
         m = full[off:]
         hit = False
@@ -149,25 +158,27 @@ def expected(t, addr, ty, chosen=frozenset()):
             st = P5.spec_types(ast, ty)
             if st == "mustnot":
                 continue
-            if st == "free" and (t.tid, i, off, obj) not in chosen:
-                continue
+            if st == "free":
+                free.append((t.tid, i, off, obj))
+                if chosen is not None and (t.tid, i, off, obj) not in chosen:
+                    continue
             hit = True
             end = min(ends)
             loc = b"/" + full[off0:off + end]
-            out.append((t.tid, i, off, obj, loc))
+            out.append(("E", t.tid, i, off, obj, loc))
             if sub:
                 # the level below is addressed by what follows the matched name; the
                 # index an enumerated parent hands down is the one spelled at its first '#'
                 n = first_number(m[name.index(b"#"):]) if b"#" in name else 0
                 level(sub, off + end, child_obj(obj, t.tid, i, n))
-        if not hit:
-            nomatch_tabs.add(t.tid)
+        if not hit and t.dflt:
+            out.append(("D", t.tid, off, obj, b"/" + full[off0:off]))
     level(t, off0, 1)
-    return out, nomatch_tabs
+    return out, free
 
 def parse_run(s, withloc):
     f = s.split(" ")
-    evs, dfl = [], []
+    evs, dfl, seq = [], [], []
     if f[0] != "-":
         for e in f[0].split(";"):
             if e == "ERR":
@@ -176,11 +187,13 @@ def parse_run(s, withloc):
             r = rest.split("/")
             if head.startswith("D"):
                 dfl.append((int(head[1:]), int(r[0]), int(r[1]), r[2]))
+                seq.append(("D",) + dfl[-1][:3])
             else:
                 tid, i = head.split(":")
                 evs.append((int(tid), int(i), int(r[0]), int(r[1]), r[2], int(r[3]), r[4]))
+                seq.append(("E",) + evs[-1][:4])
     d = dict(kv.split("=") for kv in f[1:])
-    return evs, dfl, int(d["m"]), d.get("loc"), int(d["obj"])
+    return evs, dfl, int(d["m"]), d.get("loc"), int(d["obj"]), seq
 
 def spec_check(case, impl):
     f = case.split(" ")
@@ -190,14 +203,27 @@ def spec_check(case, impl):
         t = parse_tree(f[1])
         addr, ty = unhx(f[2]), unhx(f[3])
         Ls, Ns, Rs = impl.split(" | ")
-        Lev, Ldf, Lm, Lloc, Lobj = parse_run(Ls[2:], True)
-        Nev, Ndf, Nm, _, Nobj = parse_run(Ns[2:], False)
+        Lev, Ldf, Lm, Lloc, Lobj, Lseq = parse_run(Ls[2:], True)
+        Nev, Ndf, Nm, _, Nobj, Nseq = parse_run(Ns[2:], False)
     except Exception as e:
         return "crash: unparsable output %s (%s)" % (impl[:120], e)
-    exp, nomatch = expected(t, addr, ty, frozenset((a, b, c, d) for a, b, c, d, _, _, _ in Lev))
     names = {tb.tid: tb for tb in walk(t)}
     def pname(tid, i):
         return names[tid].ports[i][0].decode("latin1")
+    # no-verdict ports (type string a proper extension of an alternative): which of them ran is
+    # read off the run with buffer; the verdict must depend on (type specification, tags) only
+    ran = frozenset((a, b, c, d) for a, b, c, d, _, _, _ in Lev)
+    seq_all, free = expected(t, addr, ty, ran)
+    verdict = {}
+    for fr in free:
+        spec = names[fr[0]].ports[fr[1]][0].split(b":", 1)[1]
+        v = fr in ran
+        if verdict.setdefault(spec, (v, fr))[0] != v:
+            o = verdict[spec][1]
+            return ("extension-inconsistent: type string '%s' against the specification ':%s': port '%s' (table %d) is %s, "
+                    "port '%s' (table %d) is %s" % (ty.decode("latin1"), spec.decode("latin1"), pname(fr[0], fr[1]), fr[0],
+                    "invoked" if v else "not invoked", pname(o[0], o[1]), o[0], "invoked" if not v else "not invoked"))
+    exp = [e[1:] for e in seq_all if e[0] == "E"]
     want = [(a, b, c, d) for a, b, c, d, _ in exp]
     gotL = [(a, b, c, d) for a, b, c, d, _, _, _ in Lev]
     gotN = [(a, b, c, d) for a, b, c, d, _, _, _ in Nev]
@@ -239,9 +265,27 @@ def spec_check(case, impl):
         return "matches: d.matches = %d after a root dispatch without location buffer" % Nm
     if Lloc != hx(b"/"):
         return "loc-restored: loc is '%s' after the root dispatch" % Lloc
-    for tid, _, _, _ in Ldf + Ndf:
-        if tid not in nomatch or not names[tid].dflt:
-            return "default-handler: table %d runs its default handler although one of its ports matches" % tid
+    # the default handler: in BOTH runs, exactly for the tables reached without a matching port,
+    # at its place in the sequence, with the message suffix, object and location of that level
+    wantD = [e[1:] for e in seq_all if e[0] == "D"]
+    for tag, got in (("with", Ldf), ("without", Ndf)):
+        for g in got:
+            if (g[0], g[1], g[2]) not in [(a, b, c) for a, b, c, _ in wantD]:
+                return ("default-handler: %s location buffer table %d runs its default handler (msg offset %d, obj %d) although "
+                        "one of its ports matches / it was not reached" % (tag, g[0], g[1], g[2]))
+        for w in wantD:
+            n = sum(1 for g in got if (g[0], g[1], g[2]) == w[:3])
+            if n != 1:
+                return ("default-handler-missing: %s location buffer table %d has a default handler and none of its ports takes "
+                        "the message (msg offset %d, obj %d): it must run once, it runs %d times" % (tag, w[0], w[1], w[2], n))
+    for (a, b, c, loc), g in zip(wantD, Ldf):
+        if g[3] != hx(loc):
+            return "loc: the default handler of table %d sees loc '%s', the location of its level is '%s'" % (
+                a, unhx(g[3]).decode("latin1") if g[3] != "~" else "NULL", loc.decode("latin1"))
+    wseq = [e[:5] if e[0] == "E" else e[:4] for e in seq_all]
+    for tag, got in (("with", Lseq), ("without", Nseq)):
+        if got != wseq:
+            return "order: %s location buffer callbacks and default handlers run in another order than the ports" % tag
     # the hypothesis of C04_strategy_independent on the library's own tables
     for tb in walk(t):
         if tb.pos not in ("-", "?"):
@@ -284,14 +328,16 @@ def component(rng, allow_hash):
         c += b"#" + str(rng.choice([1, 2, 3, 4, 10])).encode()
     return c
 
-def gen_names(rng, n, allow_hash, allow_sub, friendly=False, multi=False):
+HIGH = b"\x7f\x80\xe9\xff"      # 0x7f: one past the 127-entry letter table of the pinned code; >= 0x80: negative as a plain char
+
+def gen_names(rng, n, allow_hash, allow_sub, friendly=False, multi=False, high=False):
     names, seen = [], set()
     keys = set()
     tries = 0
     while len(names) < n and tries < 400:
         tries += 1
         l = rng.choice([1, 1, 2, 2, 2, 3, 3])
-        base = bytes(rng.choice(b"abc") for _ in range(l))
+        base = bytes(rng.choice(b"abc" + HIGH if high else b"abc") for _ in range(l))
         if rng.random() < 0.15:
             base += bytes([rng.choice(b"012")])
         if names and rng.random() < 0.25:                  # anagram / prefix / extension of an earlier one
@@ -342,7 +388,8 @@ def gen_tree(rng, depth, counter, maxdepth):
     friendly = rng.random() < 0.45          # literal names with distinct keys: the library hashes these
     allow_hash = (not friendly) and rng.random() < 0.5
     multi = rng.random() < (0.2 if friendly else 0.35)   # a '#'-free table with such a name is not hashed either
-    names = gen_names(rng, n, allow_hash, depth + 1 < maxdepth, friendly, multi)
+    high = rng.random() < 0.06              # port names with bytes >= 0x7f (refreshMagic wrote outside the letter table)
+    names = gen_names(rng, n, allow_hash, depth + 1 < maxdepth, friendly, multi, high)
     if not friendly and rng.random() < 0.08:
         names.insert(rng.randrange(len(names) + 1), rng.choice([b"a/b", b"b/a", b"ab/c", b"a/b:i"]))
     tid = counter[0]; counter[0] += 1
@@ -391,10 +438,24 @@ def gen_address(rng, t):
         i = rng.randrange(1, len(text)); text = text[:i] + text[i + 1:]; kind = "removed"
     elif r < 0.75 and len(text) > 1:
         i = rng.randrange(1, len(text)); text = text[:i] + bytes([rng.choice(b"abc01")]) + text[i + 1:]; kind = "changed"
-    elif r < 0.8:
+    elif r < 0.79:
         text = text.replace(b"/", b"//", 2)[1:] if rng.random() < 0.5 else text[1:]; kind = "slashes"
-    elif r < 0.88:
+    elif r < 0.85:
         text = b"/" + bytes(rng.choice(b"abc/1") for _ in range(rng.randint(1, 5))); kind = "random"
+    elif r < 0.93:
+        # a byte >= 0x7f somewhere in the address: changed / inserted / appended / a whole component
+        hb = bytes([rng.choice(HIGH)])
+        q = rng.random()
+        if q < 0.4 and len(text) > 1:
+            i = rng.randrange(1, len(text)); text = text[:i] + hb + text[i + 1:]
+        elif q < 0.6 and len(text) > 1:
+            i = rng.randrange(1, len(text) + 1); text = text[:i] + hb + text[i:]
+        elif q < 0.8:
+            text += hb
+        else:
+            cut = text.rfind(b"/", 0, len(text) - 1) + 1
+            text = text[:cut] + bytes(rng.choice(HIGH) for _ in range(rng.randint(1, 3)))
+        kind = "high-byte"
     else:
         text += rng.choice([b"/", b"/a", b"a/"]); kind = "extra-level"
     if types is None or rng.random() < 0.15:
@@ -454,8 +515,11 @@ def gen(rng, tier, dist):
         maxdepth = rng.choice([1, 1, 2, 2, 3, 3, 4])
         trees.append(gen_tree(rng, 0, [0], maxdepth))
     # the findings' witnesses are always there
-    for names in ([b"ab", b"ba", b"aa", b"bb"], [b"c", b"a/b"], [b"a", b"bcd"], [b"a", b"a/"]):
+    for names in ([b"ab", b"ba", b"aa", b"bb"], [b"c", b"a/b"], [b"a", b"bcd"], [b"a", b"a/"],
+                  [b"ab", b"cd", b"ef"], [b"a\xe9", b"b\x7f", b"\xff"]):
         trees.append(Tab(0, False, [(n, None) for n in names]))
+    for names in ([b"ab", b"cd", b"ef"], [b"a#2", b"cd"], [b"a:i", b"b"]):     # default handler: hashed / unhashed table
+        trees.append(Tab(0, True, [(n, None) for n in names]))
     got = fetch_tables(trees, lambda s: None)
     dist["tables-from-library"] = bool(got)
     out = []
@@ -467,6 +531,9 @@ def gen(rng, tier, dist):
                 dist["table-hashed-with>=8-ports"] = dist.get("table-hashed-with>=8-ports", 0) + 1
             if tb.dflt:
                 dist["table-with-default-handler"] = dist.get("table-with-default-handler", 0) + 1
+                dist["table-with-default-handler-" + k[6:]] = dist.get("table-with-default-handler-" + k[6:], 0) + 1
+            if any(c >= 0x7f for nm, _ in tb.ports for c in nm):
+                dist[k + "-with-name-bytes>=0x7f"] = dist.get(k + "-with-name-bytes>=0x7f", 0) + 1
             lit_multi_sub = False
             for i, (name, sub) in enumerate(tb.ports):
                 key = name.split(b":")[0]
@@ -482,6 +549,7 @@ def gen(rng, tier, dist):
         nt = sum(1 for _ in walk(t))
         dist["trees-with-%d-tables" % min(nt, 6)] = dist.get("trees-with-%d-tables" % min(nt, 6), 0) + 1
         s = ".".join(ser(t))
+        names_of = {tb.tid: tb for tb in walk(t)}
         seen = set()
         for _ in range(per):
             addr, ty, kind = gen_address(rng, t)
@@ -489,6 +557,16 @@ def gen(rng, tier, dist):
                 continue
             if types_free(t, ty):
                 dist["types-extension-of-an-alternative"] = dist.get("types-extension-of-an-alternative", 0) + 1
+            sq, fr = expected(t, addr, ty)
+            if fr:       # the address reaches such a port: whether it runs has NO VERDICT in the Spec oracle
+                dist["no-verdict:address-reaches-a-port-whose-alternative-is-properly-extended"] = dist.get("no-verdict:address-reaches-a-port-whose-alternative-is-properly-extended", 0) + 1
+            nd = sum(1 for e in sq if e[0] == "D")
+            if nd and not fr:
+                hashed = any(e[0] == "D" and names_of[e[1]].pos not in ("-", "?") for e in sq)
+                kk = "default-handler-expected-in-" + ("hashed" if hashed else "linear") + "-table"
+                dist[kk] = dist.get(kk, 0) + 1
+            if any(c >= 0x7f for c in addr):
+                dist["address-with-byte>=0x7f"] = dist.get("address-with-byte>=0x7f", 0) + 1
             seen.add((addr, ty))
             dist["address-" + kind] = dist.get("address-" + kind, 0) + 1
             out.append("disp %s %s %s %s" % (s, hx(addr), hx(ty), kind))
@@ -498,18 +576,20 @@ TECHNIQUE = ("Coq proofs about a hand-written model of Ports::dispatch (linear s
              "C05's matcher model + differential correspondence on run-time built port trees under ASan with the "
              "library's own hash tables + independent Python Spec oracle")
 LEVEL_TEXT = ("Proved per table of Ports::dispatch, for ANY callbacks, any number of ports, any address / type string "
-              "(7-bit, no ':'): the loops invoke exactly the ports whose name matches (C05's matcher), once each, in port "
+              "(any bytes, no ':'): the loops invoke exactly the ports whose name matches (C05's matcher), once each, in port "
               "order (C04_exactly_matching_*, C04_scan_hits_are_matches); for every literal table the repaired library "
               "hashes - pos/assoc being ANY output of the search - the hashed lookup hits port j iff the linear scan does and "
-              "never fails (C04_strategy_independent), at most one port is hit (C04_one_port), the default handler runs only "
-              "when none is (C04_default_handler_only_when_no_port_matches); whatever the tables are the hashed branch never "
+              "never fails - no read outside the 256-entry letter table - (C04_strategy_independent), at most one port is hit (C04_one_port), the default handler runs only "
+              "when none is (C04_default_handler_only_when_no_port_matches) and then on every path, hashed or scanned, with or without buffer "
+              "(C04_default_handler_every_path, C04_unhashed_same_calls); whatever the tables are the hashed branch never "
               "invokes a port whose name does not match (C04_hash_sound); the callback sees its own Port, loc = location + "
               "its name, and the buffer is restored (C04_port_pointer_and_loc, C04_loc_restored_*). The pinned functions are "
               "refuted on {ab,ba,aa,bb}, {c,a/b}, {a,bcd} (C04_pinned_refuted, C04_multicomponent_refuted, "
-              "C04_prefix_refuted; three fix: commits). Proved for a tree of any depth (Ports/TreeProofs.v): a root dispatch "
+              "C04_prefix_refuted; three fix: commits), the 127-entry plain-char letter table on {ab,cd,ef} with /\\xe9\\xe9 "
+              "(C04_highbyte_refuted, fix 7baa3a8) and the default handler that ran on one path only (C04_default_path_refuted, fix 0074cc3). Proved for a tree of any depth (Ports/TreeProofs.v): a root dispatch "
               "logs exactly spec_events with and without buffer (C04_tree_dispatch_*), matches = leaf callbacks "
-              "(C04_matches_count), own Port (C04_port_pointer), same callbacks with and without buffer "
-              "(C04_tree_strategy_independent), one leaf for an addressed path (C04_exactly_one_leaf); for names of the "
+              "(C04_matches_count), own Port (C04_port_pointer), same callbacks and the same default-handler calls with and without buffer "
+              "(C04_tree_strategy_independent), never the model's error event (C04_no_error, C04_spec_events_no_error), one leaf for an addressed path (C04_exactly_one_leaf); for names of the "
               "documented form with ANY number of address components (a#2/b#3/, x/y/, a#2/k#2:i) every callback's loc is a "
               "prefix of the full address and a leaf's loc is the full address (C04_loc_full_address), the table below a "
               "sub-tree port receives exactly what follows the matched name (C04_snip_strips_matched_name), the index handed "
